@@ -58,7 +58,17 @@ class SocWorld(World):
 
     def _gen_leaf(self, rng, cw):
         """Returns (node, needed address width)."""
-        kind = rng.wchoice([("regs", 4), ("evmon", 2), ("gpio", 2)])
+        kind = rng.wchoice([("regs", 4), ("evmon", 2), ("gpio", 2), ("rawmux", 1)])
+        if kind == "rawmux":
+            regs = []
+            total = 0
+            for j in range(rng.range(1, 4)):
+                w = rng.choice([1, cw, cw + 3, 2 * cw])
+                total += (w + cw - 1) // cw
+                regs.append({"w": w, "acc": rng.choice(["r", "w", "rw"])})
+            aw = max(1, (total - 1).bit_length()) + rng.choice([0, 1])
+            return {"t": "rawmux", "aw": aw, "regs": regs,
+                    "late": rng.range(1, len(regs)) if rng.chance(0.5) else 0}, aw
         if kind == "regs":
             regs = []
             total = 0
@@ -200,6 +210,26 @@ class SocWorld(World):
                 if rc["acc"] == "r":
                     ctx["rfields"].append(reg.f.r_data)
             return br.bus
+        if node["t"] == "rawmux":
+            from amaranth_soc.memory import MemoryMap
+            mm = MemoryMap(addr_width=node["aw"], data_width=cw)
+            mux = None
+            cut = len(node["regs"]) - int(node.get("late") or 0)
+            for j, rc in enumerate(node["regs"]):
+                if j == cut:
+                    mux = csr.Multiplexer(mm)      # the map is still being filled afterwards
+                ctx["n"] += 1
+                reg = hw.MockReg(rc["w"], rc["acc"])
+                try:
+                    mm.add_resource(reg, name=(f"raw{ctx['n']}",), size=(rc["w"] + cw - 1) // cw)
+                except ValueError:
+                    continue
+                if "r" in rc["acc"]:
+                    ctx["rfields"].append(reg.element.r_data)
+            if mux is None:
+                mux = csr.Multiplexer(mm)
+            ctx["mods"].append(mux)
+            return mux.bus
         if node["t"] == "evmon":
             em = event.EventMap()
             for i in range(node["n"]):
